@@ -239,6 +239,30 @@ theorem mem_tallyAll_other (band : Int) (height : Nat) (bs : List (String × Lis
     rw [ih _ _ h.2]
     exact mem_setRate_other _ _ _ h.1
 
+/-- **The vote targets of the next period.** The period end leaves the stored whitelist alone or replaces it by exactly the
+    whitelist parameter (sorted, duplicates removed): a de-listed pair is a target of the next period only if the store was not
+    rewritten at all, and no pair outside the parameter ever enters it. -/
+theorem C10_next_targets_are_old_or_the_parameter (store next cur : List String) :
+    refreshWhitelist store next cur = store ∨
+    refreshWhitelist store next cur = sortBy (fun a b => decide (a ≤ b)) next.eraseDups := by
+  unfold refreshWhitelist
+  simp only
+  cases (decide (cur.length ≠ next.length) || next.any fun p => !cur.contains p) with
+  | true => exact Or.inr (by simp)
+  | false => exact Or.inl (by simp)
+
+/-- … and it IS rewritten whenever the parameter names a pair that the surviving set lacks or the two differ in size — in
+    particular when one pair was swapped for another -/
+theorem C10_refresh_when_a_new_pair_is_listed (store next cur : List String) (p : String) (hp : p ∈ next) (hn : p ∉ cur) :
+    refreshWhitelist store next cur = sortBy (fun a b => decide (a ≤ b)) next.eraseDups := by
+  unfold refreshWhitelist
+  have h : (decide (cur.length ≠ next.length) || next.any (fun q => !cur.contains q)) = true := by
+    rw [Bool.or_eq_true]
+    right
+    rw [List.any_eq_true]
+    exact ⟨p, hp, by simp [hn]⟩
+  simp only [h, if_true]
+
 /-- **Expiry.** A stored rate whose pair is not refreshed at this period end is kept iff it is younger than
     ExpirationBlocks: it is dropped at the first period end with `created + ExpirationBlocks ≤ height`. A refreshed pair's old
     rate is always removed (and replaced by `lookup_tallyAll`). -/
